@@ -323,12 +323,54 @@ def cleanup(sink, h, ident):
             sink.violation('harness/cleanup-failed', 'shared types restored', ident, repr(e))
 
 
+def builtin_sweep(sink):
+    """Every built-in node type x every namespace: never re-registered, never unregistered, and the failed attempts change nothing."""
+    from collections import OrderedDict, defaultdict, deque
+
+    samples = {tuple: (1, 2), list: [1, 2], dict: {'b': 1, 'a': 2}, OrderedDict: OrderedDict(b=1, a=2), defaultdict: defaultdict(int, b=1, a=2), deque: deque([1, 2], maxlen=3), type(None): None}
+
+    def view():
+        out = []
+        for t, x in samples.items():
+            for ns in ('', 'a', 'zz'):
+                for nil in (False, True):
+                    leaves, spec = optree.tree_flatten((x,), none_is_leaf=nil, namespace=ns)
+                    e = optree.register_pytree_node.get(t, namespace=ns)
+                    out.append((t.__name__, ns, nil, repr(spec), len(leaves), None if e is None else (e.kind, e.type, e.namespace)))
+        return out
+
+    before = view()
+    for t in samples:
+        for ns in (GLOBAL, 'a', 'b'):
+            for warn_error in (False, True):
+                with warnings.catch_warnings():
+                    warnings.simplefilter('error' if warn_error else 'ignore')
+                    for what, f in (('register', lambda: optree.register_pytree_node(t, lambda o: ((), None, None), lambda m, c: None, namespace=ns)),
+                                    ('register-class', lambda: optree.register_pytree_node_class(t, namespace=ns)),
+                                    ('unregister', lambda: optree.unregister_pytree_node(t, namespace=ns))):
+                        try:
+                            f()
+                            got = 'accepted'
+                        except Exception as e:  # noqa: BLE001
+                            got = type(e).__name__
+                        ident = dict(type=t.__name__, namespace=repr(ns), op=what, warnings_as_errors=warn_error)
+                        sink.check(got not in ('accepted', 'SystemError', 'InternalError'), f'builtin/{what}/{t.__name__}', 'built-in node types can never be re-registered or unregistered', ident, got)
+                        now = view()
+                        sink.check(now == before, f'builtin/{what}-changed-something/{t.__name__}', 'a failing call leaves the registry (engine and python view) exactly as it was', ident,
+                                   lambda: [(a, b) for a, b in zip(before, now) if a != b][:3])
+                        if now != before:
+                            before = now  # report each divergence once
+                        sink.count('builtin-attempts')
+
+
 def shards(tier, seed):
     return [dict(i=i, n=16) for i in range(16)] if tier != 'quick' else [dict(i=i, n=8) for i in range(8)]
 
 
 def run_shard(sink, tier, seed, shard):
     i0, n = shard['i'], shard['n']
+    if i0 == 0:
+        sink.guard('harness', 'builtin-sweep', {}, lambda: builtin_sweep(sink))
     full = full_alphabet()
     red = reduced_alphabet()
     jobs = []
@@ -359,6 +401,7 @@ def run_shard(sink, tier, seed, shard):
 
 
 def finalize(sink, tier, seed):
+    sink.require('builtin-attempts', 100)
     sink.require('observations', 1000)
     sink.require('steps:ok', 100)
     sink.require('steps:raise', 100)
